@@ -51,12 +51,36 @@ class Cache:
         return self.value
 
 
+class _GrpcErr:
+    """stand-in for grpc.aio.AioRpcError, only what the exception constructor reads"""
+    def code(self):
+        return NS(name="OUT_OF_RANGE", value=(11, "out of range"))
+
+    def details(self):
+        return "out of range"
+
+    def debug_error_string(self):
+        return ""
+
+
+# per-inverter outcome of set_power: 0 accepted, 1 OperationOutOfRange, 2 other ApiClientError, 4 no reply (timeout)
+FAULT_NAMES = {0: "Accounting.OOk", 1: "Accounting.ORange", 2: "Accounting.OClient", 4: "Accounting.OTimeout"}
+
+
 class Api:
     def __init__(self):
-        self.calls = []
+        self.calls, self.faults = [], {}
 
     async def set_power(self, component_id, power):
+        from frequenz.client.microgrid import ApiClientError, OperationOutOfRange
         self.calls.append((component_id, power))
+        o = self.faults.get(component_id, 0)
+        if o == 1:
+            raise OperationOutOfRange(server_url="fake", operation="set_power", grpc_error=_GrpcErr())
+        if o == 2:
+            raise ApiClientError(server_url="fake", operation="set_power", description="scripted", retryable=False)
+        if o == 4:
+            await asyncio.Event().wait()       # never replies: the manager's timeout cancels the task
 
 
 class Tracker:
@@ -131,9 +155,10 @@ def run_sequence(case):
                 continue
             del log[:]
             api.calls.clear()
+            api.faults = {int(i): int(c) for i, c in st.get("faults", [])}
             n0 = len(m._results_sender.msgs)
             req = I.Request(power=I.Power.from_watts(X(D.fr(st["power"]))), component_ids=pool, adjust_power=bool(st["adjust"]))
-            o = {"kind": None, "calls": None, "succ": None, "excess": None, "order": [], "n_results": 0}
+            o = {"kind": None, "calls": None, "succ": None, "excess": None, "failed_power": None, "order": [], "n_results": 0}
             try:
                 loop.run_until_complete(m.distribute_power(req))
             except Exception as exc:  # noqa: BLE001 - part of the observation
@@ -157,6 +182,9 @@ def run_sequence(case):
                     o["succ"] = D.js(r.succeeded_power.as_watts())
                     o["excess"] = D.js(r.excess_power.as_watts())
                     o["succ_components"] = sorted(r.succeeded_components)
+                if isinstance(r, I.R.PartialFailure):
+                    o["failed_power"] = D.js(r.failed_power.as_watts())
+                    o["failed_components"] = sorted(r.failed_components)
             else:
                 o["kind"] = f"results:{len(msgs)}"
             out.append(o)
@@ -222,18 +250,32 @@ def judge(case, obs):
                 out.append(("C01_error", k, f"request {k}: BatteryManager.distribute_power raised {o['kind'][6:]}"))
                 out.append(("C02_error", k, f"request {k}: BatteryManager.distribute_power raised {o['kind'][6:]}"))
             continue
-        if o["kind"] != "Success":
+        if o["kind"] not in ("Success", "PartialFailure"):
             # whatever was rejected must not have been commanded
             if o["calls"]:
                 out.append(("C01_rejected_but_commanded", k, f"request {k}: result {o['kind']} but set_power calls {o['calls']}"))
             continue
+        faults = {int(i): int(c) for i, c in view[2].get("faults", [])}
+        failed_p = D.fr(o["failed_power"]) if o["failed_power"] is not None else F(0)
         want = sorted(i["id"] for g in dc["groups"] for i in g["invs"])
         got = [c for c, _ in o["calls"]]
         if got != want:
             out.append(("C01_calls", k, f"request {k}: set_power called for inverters {got}, the request covers {want}"))
             out.append(("C02_calls", k, f"request {k}: set_power called for inverters {got}, the request covers {want}"))
             continue
-        sub = {"err": None, "dist": o["calls"], "rem": o["excess"], "distributed": o["succ"]}
+        # reported-as-set under API faults: succeeded = accepted set-points, failed = rejected set-points
+        acc = sum(D.fr(v) for c, v in o["calls"] if faults.get(c, 0) == 0)
+        rej = sum(D.fr(v) for c, v in o["calls"] if faults.get(c, 0) != 0)
+        req_p = D.fr(view[2]["power"])
+        if abs(D.fr(o["succ"]) - acc) > D.TOL:
+            out.append(("C01_reported_succeeded", k, f"request {k} ({req_p}, faults {sorted(faults.items())}): succeeded_power {D.fr(o['succ'])} != sum of the accepted set-points {acc} (calls {o['calls']})"))
+        if abs(failed_p - rej) > D.TOL:
+            out.append(("C01_reported_failed", k, f"request {k} ({req_p}, faults {sorted(faults.items())}): failed_power {failed_p} ({o['kind']}) != sum of the rejected set-points {rej} (calls {o['calls']})"))
+        if abs(D.fr(o["succ"]) + failed_p + D.fr(o["excess"]) - req_p) > D.TOL and abs(req_p) > D.ZERO_TOL:
+            out.append(("C01_reported_total", k, f"request {k}: succeeded {D.fr(o['succ'])} + failed {failed_p} + excess {D.fr(o['excess'])} != request {req_p}"))
+        if (o["kind"] == "Success") != (not any(faults.get(c, 0) for c, _ in o["calls"])):
+            out.append(("C01_reported_kind", k, f"request {k}: result {o['kind']} although the rejected set_power calls are {[c for c, _ in o['calls'] if faults.get(c, 0)]}"))
+        sub = {"err": None, "dist": o["calls"], "rem": o["excess"], "distributed": D.js(D.fr(o["succ"]) + failed_p)}
         for cl, gi, text in D.clauses(dc, sub):
             out.append((cl, k, f"request {k} ({'adjust' if view[2]['adjust'] else 'exact'} {D.fr(view[2]['power'])}): {text}"))
         # conservation and reported-is-commanded also hold outside the admission domain whenever the manager says Success
@@ -242,31 +284,49 @@ def judge(case, obs):
         if not D.in_domain(dc) and abs(p) > D.ZERO_TOL:
             if abs(tot + D.fr(o["excess"]) - p) > D.TOL:
                 out.append(("C01_sum", k, f"request {k}: set-points {tot} + excess {D.fr(o['excess'])} != request {p}"))
-            if abs(D.fr(o["succ"]) - tot) > D.TOL:
-                out.append(("C01_reported", k, f"request {k}: succeeded_power {D.fr(o['succ'])} != commanded {tot}"))
+            if abs(D.fr(o["succ"]) + failed_p - tot) > D.TOL:
+                out.append(("C01_reported", k, f"request {k}: succeeded_power + failed_power {D.fr(o['succ']) + failed_p} != commanded {tot}"))
     return out
 
 
 # ----------------------------------------------------------------------------- Coq rendering
 HEADER = """From Verif Require Import model.DistMgr.
+From Verif Require model.Accounting.
 Open Scope Q_scope.
 (* one entry per request: battery sets with their latest data in the order the manager visited them, request,
-   adjust_power, expected: 0 = Error, 1 = OutOfBounds, 2 = Success with (set_power calls sorted by id, excess, succeeded) *)
-Definition check1 (c : list group * Q * bool * (nat * option (list (Z * Q) * Q * Q))) : bool :=
-  let '(gs, p, adj, (kind, exp)) := c in
+   adjust_power, inverter -> batteries map, per-inverter set_power outcome, expected: 0 = Error, 1 = OutOfBounds,
+   2 = Success / 3 = PartialFailure with (set_power calls sorted by id, excess, succeeded power, failed power) *)
+Definition mcase := (list group * Q * bool * list (Z * list Z) * (Z -> Accounting.outcome) * (nat * option (list (Z * Q) * Q * Q * Q)))%type.
+Definition check1 (c : mcase) : bool :=
+  let '(gs, p, adj, m, outf, (kind, exp)) := c in
   match manager_request (fun x => x) gs p adj, kind, exp with
   | MError, 0%nat, _ => true
   | MFailed, 0%nat, _ => true
   | MOutOfBounds, 1%nat, _ => true
-  | MDone r, 2%nat, Some (d, rem, dd) =>
+  | MDone r, _, Some (d, rem, sp, fp) =>
       list_eqb (fun a b => Z.eqb (fst a) (fst b) && Qeq_bool (snd a) (snd b)) (sort_by_id (res_dist (rr_res r))) d
-      && Qeq_bool (res_rem (rr_res r)) rem && Qeq_bool (res_distributed r) dd
+      && match faults_result p r m outf, kind with
+         | Accounting.Success s _ e, 2%nat => Qeq_bool s sp && Qeq_bool e rem && Qeq_bool fp 0
+         | Accounting.PartialFailure s _ f _ e, 3%nat => Qeq_bool s sp && Qeq_bool e rem && Qeq_bool f fp
+         | _, _ => false
+         end
   | _, _, _ => false
   end.
-Definition check (c : list (list group * Q * bool * (nat * option (list (Z * Q) * Q * Q)))) : bool := forallb check1 c.
+Definition check (c : list mcase) : bool := forallb check1 c.
 """
 
-KIND = {"Error": 0, "OutOfBounds": 1, "Success": 2}
+KIND = {"Error": 0, "OutOfBounds": 1, "Success": 2, "PartialFailure": 3}
+
+
+def c_outf(faults):
+    t = "Accounting.OOk"
+    for i, c in sorted(faults):
+        t = f"if Z.eqb i ({cZ(i)}) then {FAULT_NAMES[int(c)]} else {t}"
+    return f"(fun i : Z => {t})"
+
+
+def c_map(case):
+    return "[" + "; ".join(f"(({cZ(i)})%Z, [" + "; ".join(f"({cZ(b)})%Z" for b in g["bats"]) + "])" for g in case["groups"] for i in g["invs"]) + "]"
 
 
 def case_term(case, obs):
@@ -275,12 +335,14 @@ def case_term(case, obs):
         dc, _ = dist_case(case, view, o.get("order"))
         if o["kind"] not in KIND:
             return None          # exceptions / several results: no model twin (the oracle reports them)
-        if o["kind"] == "Success":
+        if o["kind"] in ("Success", "PartialFailure"):
             d = "[" + "; ".join(f"(({cZ(c)})%Z, {D.cQ(v)})" for c, v in o["calls"]) + "]"
-            exp = f"(2%nat, Some ({d}, {D.cQ(o['excess'])}, {D.cQ(o['succ'])}))"
+            fp = o["failed_power"] if o["failed_power"] is not None else 0
+            exp = f"({KIND[o['kind']]}%nat, Some ({d}, {D.cQ(o['excess'])}, {D.cQ(o['succ'])}, {D.cQ(fp)}))"
         else:
             exp = f"({KIND[o['kind']]}%nat, None)"
-        items.append(f"({D.c_groups(dc)}, {D.cQ(view[2]['power'])}, {'true' if view[2]['adjust'] else 'false'}, {exp})")
+        items.append(f"({D.c_groups(dc)}, {D.cQ(view[2]['power'])}, {'true' if view[2]['adjust'] else 'false'}, "
+                     f"{c_map(case)}, {c_outf(view[2].get('faults', []))}, {exp})")
     return "[" + "; ".join(items) + "]"
 
 
@@ -330,7 +392,17 @@ def gen_case(rng):
         dc = {"groups": [{"bats": [{**cur_b[b], "id": b} for b in g["bats"]], "invs": [{**cur_i[i], "id": i} for i in g["invs"]]}
                          for g in topo], "power": 1, "exp": 1}
         p = rng.choice(_requests(rng, dc))
-        steps.append({"t": "req", "power": D.js(p), "adjust": rng.random() < 0.6})
+        req = {"t": "req", "power": D.js(p), "adjust": rng.random() < 0.6}
+        if rng.random() < 0.35:       # API faults: per-inverter outcome of set_power
+            all_invs = [i for g in topo for i in g["invs"]]
+            kind = rng.choice(["range_only", "range_only", "mixed", "one_of_set"])
+            if kind == "one_of_set" and any(len(g["invs"]) > 1 for g in topo):
+                g = rng.choice([g for g in topo if len(g["invs"]) > 1])
+                req["faults"] = [[rng.choice(g["invs"]), rng.choice([1, 2, 4])]]
+            else:
+                chosen = [i for i in all_invs if rng.random() < 0.5] or [rng.choice(all_invs)]
+                req["faults"] = [[i, 1 if kind == "range_only" else rng.choice([1, 2, 4])] for i in chosen]
+        steps.append(req)
         # next update: which side gets a fresh sample
         nb, ni = _comp_data(rng, topo)
         side = rng.choice(["bat", "inv", "inv", "both", "same_ts_inv", "same_ts_bat", "none"])
@@ -374,10 +446,24 @@ def boundary_cases():
                                           {"t": "req", "power": -800, "adjust": True},
                                           {"t": "data", "ts": 2, "bats": [[1, {**b, "soc": 100}]], "invs": []},
                                           {"t": "req", "power": 150, "adjust": True}]})
+    # API faults: a pure out-of-range rejection, one inverter of a two-inverter set failing, a timeout
+    topo2 = [{"bats": [7], "invs": [8]}, {"bats": [17], "invs": [18, 19]}]
+    d2 = {"t": "data", "ts": 0, "bats": [[7, b], [17, b]], "invs": [[8, i], [18, i], [19, i]]}
+    out.append({"groups": topo2, "steps": [d2,
+                                           {"t": "req", "power": 1000, "adjust": True, "faults": [[8, 1]]},
+                                           {"t": "req", "power": 1400, "adjust": True, "faults": [[18, 2]]},
+                                           {"t": "req", "power": -1400, "adjust": True, "faults": [[19, 1]]},
+                                           {"t": "req", "power": 600, "adjust": False, "faults": [[8, 4], [18, 1]]},
+                                           {"t": "req", "power": -600, "adjust": True, "faults": [[8, 1], [18, 1], [19, 1]]}]})
     return out
 
 
 def shrink_case(case):
+    for k, st in enumerate(case["steps"]):
+        if st["t"] == "req" and st.get("faults"):
+            for j in range(len(st["faults"])):
+                st2 = {**st, "faults": st["faults"][:j] + st["faults"][j + 1:]}
+                yield {**case, "steps": case["steps"][:k] + [st2] + case["steps"][k + 1:]}
     steps = case["steps"]
     for k in range(len(steps) - 1, -1, -1):
         if len(steps) > 1:
@@ -464,6 +550,12 @@ class ManagerStream(Stream):
             p = D.fr(st["power"])
             out.append(f"result:{o['kind']}")
             out.append("mode:adjust" if st["adjust"] else "mode:exact")
+            if st.get("faults"):
+                codes = sorted({c for _, c in st["faults"]})
+                out.append("faults:" + "+".join({1: "out_of_range", 2: "client_error", 4: "timeout"}[c] for c in codes))
+                fs = {i for i, _ in st["faults"]}
+                if any(len(g["invs"]) > 1 and 0 < len(fs & set(g["invs"])) < len(g["invs"]) for g in case["groups"]):
+                    out.append("faults:part_of_a_multi_inverter_set")
             if dc["groups"]:
                 iu = sum(min(D.agg(g)["iu"], sum(D.fr(i["iu"]) for i in g["invs"])) for g in dc["groups"])
                 il = sum(max(D.agg(g)["il"], sum(D.fr(i["il"]) for i in g["invs"])) for g in dc["groups"])
